@@ -74,10 +74,10 @@ Proof.
     { rewrite len_firstn by (unfold len in Hk; lia). unfold len in *. lia. }
     destruct ((0 <? max) && (max <? len data)).
     + rewrite fpull_short by exact Hshort. unfold f_end. cbn [snd fst].
-      destruct f as [| |e]; eexists; (split; [reflexivity|]); unfold failure_code; auto.
+      destruct f as [| |[| |cc]]; eexists; (split; [reflexivity|]); unfold failure_code; auto.
     + assert ((len data =? 0) = false) as E0 by (apply N.eqb_neq; lia). rewrite E0.
       rewrite fpull_short by exact Hshort. unfold f_end. cbn [snd fst].
-      destruct f as [| |e]; eexists; (split; [reflexivity|]); unfold failure_code; auto.
+      destruct f as [| |[| |cc]]; eexists; (split; [reflexivity|]); unfold failure_code; auto.
 Qed.
 
 Section CutStream.
